@@ -10,6 +10,7 @@ import Mathlib.Tactic.Ring
 import Mathlib.Tactic.Linarith
 import Mathlib.Tactic.FieldSimp
 import Mathlib.Algebra.Order.Field.Rat
+import CBV.Gen.TC10
 
 namespace CBV.C10
 
